@@ -785,11 +785,65 @@ def pyobj_attr(eng, base, attr):
         raise_unsupported('class %s has no attribute %s' % (ci.name, attr))
     if k == 'extern':
         return PyObj('extern', base.payload + '.' + attr)
+    if k == 'excclass' and attr == 'raise_for_errno' and base.payload == 'BrokerResponseError':
+        return PyObj('builtin', b_raise_for_errno)
     if k == 'type':
         raise_unsupported('attribute %s of type %s' % (attr, base.payload))
     if k == 'structobj':
         return PyObj('builtin', lambda e, a, kw, fr, node, _s=base, _m=attr: struct_obj_method(e, _s, _m, a))
     raise_unsupported('attribute %s of %r' % (attr, base))
+
+
+def errno_table(eng):
+    """{errno: exception class name}, extracted mechanically from the literal `BrokerResponseError.errnos = {...}` in
+    /repo/afkak/common.py on every run"""
+    tab = getattr(eng, '_errno_table', None)
+    if tab is None:
+        tab = {}
+        mod = eng.repo.modules.get('afkak.common')
+        for n in (mod.tree.body if mod is not None else []):
+            if isinstance(n, ast.Assign) and len(n.targets) == 1 and isinstance(n.targets[0], ast.Attribute) \
+                    and n.targets[0].attr == 'errnos' and isinstance(n.value, ast.Dict):
+                for k_, v_ in zip(n.value.keys, n.value.values):
+                    try:
+                        tab[ast.literal_eval(k_)] = v_.id
+                    except Exception:
+                        raise_unsupported('errnos table entry that is not <int literal>: <class name>')
+        if not tab:
+            raise_unsupported('BrokerResponseError.errnos table not found in afkak/common.py')
+        eng._errno_table = tab
+    return tab
+
+
+def b_raise_for_errno(eng, args, kwargs, fr, node):
+    """BrokerResponseError.raise_for_errno(errno, *args): returns None for 0, raises the class the table names for the
+    code, a plain BrokerResponseError for an unlisted code.  Codes are grouped by which of the exception classes the
+    unit under verification mentions they are instances of, so the number of cases stays small."""
+    from .engine import PyRaise
+    errno = eng.num(args[0])
+    if eng.branch(errno.t == 0):
+        return VNONE
+    tab = errno_table(eng)
+    mentioned = set()
+    if eng.unit_func is not None:
+        for n in ast.walk(eng.unit_func.node):
+            if isinstance(n, ast.Name) and eng.exc.known(n.id):
+                mentioned.add(n.id)
+    groups = {}
+    for code, cls in sorted(tab.items()):
+        if code == 0 or not eng.exc.known(cls):
+            continue
+        sig = frozenset(m for m in mentioned if eng.exc.issub(cls, m))
+        groups.setdefault(sig, []).append((code, cls))
+    conds, reps = [], []
+    for sig, members in sorted(groups.items(), key=lambda kv: sorted(kv[0])):
+        conds.append(z3.Or([errno.t == c for c, _ in members]))
+        reps.append(members[0][1])
+    listed = z3.Or([errno.t == c for c in tab if c != 0])
+    conds.append(z3.Not(listed))
+    reps.append('BrokerResponseError')
+    i = eng.choose(conds)
+    raise PyRaise(reps[i])
 
 
 def b_struct_Struct(eng, args, kwargs, fr, node):
